@@ -276,7 +276,11 @@ def x_tables():
     out = []
     for n in (1, 2):
         for combo in itertools.product(range(len(X_ROUTES)), repeat=n):
-            for raw_request in (False, True):
+            # False: stock; True: raw-method request type; 'profile': behind SimpleProfileMiddleware, every request
+            # asks for the profile (?_prof=1) - the report replaces the body, never the routing; 'dev-server' /
+            # 'dev-server-absolute': the request line travels through the development server's own parsing, in
+            # origin form and in absolute form (GET http://host/path)
+            for raw_request in (False, True, 'profile', 'dev-server', 'dev-server-absolute'):
                 out.append((combo, raw_request))
     return out
 
@@ -292,14 +296,27 @@ def check_x(acc, h, combo, raw_request):
 
     class RawApp(Application):
         request_type = RawMethodRequest
-    cls = RawApp if raw_request else Application
+    cls = RawApp if raw_request is True else Application
+    kw = {}
+    if raw_request == 'profile':
+        from clastic.middleware import SimpleProfileMiddleware
+        kw['middlewares'] = [SimpleProfileMiddleware()]
     app = cls([Route(d['pattern'], h.eps[(i, d['behaviour'])], h.render if i % 2 else None, methods=d['methods'])
-               for i, d in enumerate(desc)])
+               for i, d in enumerate(desc)], **kw)
     for path in X_PATHS:
         for method in X_METHODS:
             exp = D.dispatch(desc, M.REDIRECT, path, method)
             del h.log[:]
-            res = wsgi.call(app, path, method)
+            if raw_request == 'profile':
+                res = wsgi.call(app, path, method, query='_prof=1')
+            elif str(raw_request).startswith('dev-server'):
+                if len(path) > 1000 or method != method.upper():
+                    acc.evaluated += 1
+                    continue          # a request line of that length / a lower-case method is not this seam's business
+                env = wsgi.dev_server_environ(path, method, absolute_form=raw_request.endswith('absolute'))
+                res = wsgi.call(app, None, environ=env)
+            else:
+                res = wsgi.call(app, path, method)
             acc.evaluated += 1
             acc.transitions += 1
             acc.validated += 1
@@ -307,7 +324,7 @@ def check_x(acc, h, combo, raw_request):
             acc.outcome('%s:%s:%s' % (exp['kind'], len(exp.get('executed', ())), exp.get('status', '-')))
             acc.add('nontrivial')
             if bad:
-                sig = 'C06:%s:%s:%s' % (exp['kind'], bad[0], 'raw-method-request' if raw_request else 'typed')
+                sig = 'C06:%s:%s:%s' % (exp['kind'], bad[0], ('raw-method-request' if raw_request is True else raw_request) if raw_request else 'typed')
                 acc.violation(sig, '%s; table=%r request=%s %s' % (bad[1], desc, method, path[:40]),
                               {'x': list(combo), 'raw_request': raw_request, 'path': path, 'method': method})
 
